@@ -650,3 +650,208 @@ func checkLineLoader(c *Ctx, f *ssa.Function, isParser func(*ssa.Call) bool, wha
 	}
 	c.ok(key, instrPos(parse), "line = %s(scanner.Text()); parser runs iff the line is non-empty; its error is returned", strings.Join(steps, "∘"))
 }
+
+// checkCallerCtxPassedOn: an exchange-path function hands its own context parameter, unchanged, to every inner
+// exchange it calls (ExchangeContext / ExchangeReserved / exchange). A derived context with an additional deadline
+// makes a caller give up while its reply can still arrive in time.
+func checkCallerCtxPassedOn(c *Ctx, funcs []*ssa.Function) {
+	p := c.P
+	isExchangeName := func(n string) bool {
+		return n == "ExchangeContext" || n == "ExchangeReserved" || n == "exchange"
+	}
+	ctxParam := func(f *ssa.Function) *ssa.Parameter {
+		for _, pa := range f.Params {
+			if pa.Type().String() == "context.Context" {
+				return pa
+			}
+		}
+		return nil
+	}
+	for _, f := range funcs {
+		if !isExchangeName(f.Name()) || f.Parent() != nil {
+			continue
+		}
+		cp := ctxParam(f)
+		if cp == nil {
+			continue
+		}
+		fn := f
+		eachInstr(f, func(in ssa.Instruction) {
+			if sel, ok := in.(*ssa.Select); ok && sel.Blocking {
+				for _, st := range sel.States {
+					if st.Dir != types.RecvOnly || !isCtxDone(st.Chan) {
+						continue
+					}
+					cv := st.Chan.(*ssa.Call).Call.Value
+					c.see(fn)
+					c.check(isParamValue(p, cv, cp), "ctx-waited-on@"+funcName(fn), instrPos(in), "the wait watches the caller's own context",
+						"the wait watches "+exprStr(cv)+", not the caller's context: the call can give up before the caller's deadline while its reply is on the way")
+				}
+				return
+			}
+			ci, ok := in.(*ssa.Call)
+			if !ok {
+				return
+			}
+			name := ""
+			if ci.Call.IsInvoke() {
+				name = ci.Call.Method.Name()
+			} else if sc := staticCallee(ci); sc != nil && inMosdns(sc) {
+				name = sc.Name()
+			}
+			if !isExchangeName(name) {
+				return
+			}
+			var ctxArg ssa.Value
+			for _, a := range ci.Call.Args {
+				if a.Type().String() == "context.Context" {
+					ctxArg = a
+					break
+				}
+			}
+			if ctxArg == nil {
+				return
+			}
+			c.see(fn)
+			key := "ctx-passed-on@" + funcName(fn) + "->" + name
+			c.check(isParamValue(p, ctxArg, cp), key, instrPos(in), "the inner exchange runs under the caller's own context",
+				"the inner exchange runs under "+exprStr(ctxArg)+", not the caller's context: a deadline added on the way makes the caller give up although its reply arrives before its own deadline")
+		})
+	}
+}
+
+// checkConnHandOverRendezvous: a connection object (or a struct carrying one) changes hands between goroutines only
+// over an unbuffered channel: a buffered send succeeds although the receiver has already left, and the connection is
+// then owned by nobody (not idle, not closed, never used again).
+func checkConnHandOverRendezvous(c *Ctx, funcs []*ssa.Function) {
+	p := c.P
+	carriesConn := func(t types.Type) bool {
+		var walk func(t types.Type, d int) bool
+		walk = func(t types.Type, d int) bool {
+			if d > 3 {
+				return false
+			}
+			switch u := t.(type) {
+			case *types.Pointer:
+				return walk(u.Elem(), d+1)
+			case *types.Named:
+				switch typeKey(u) {
+				case relTransport + ".reusableConn", relTransport + ".TraditionalDnsConn", relTransport + ".lazyDnsConn", relTransport + ".DnsConn", "net.Conn":
+					return true
+				}
+				if st, ok := u.Underlying().(*types.Struct); ok && d < 2 {
+					for i := 0; i < st.NumFields(); i++ {
+						if walk(st.Field(i).Type(), d+1) {
+							return true
+						}
+					}
+				}
+			case *types.Struct:
+				for i := 0; i < u.NumFields(); i++ {
+					if walk(u.Field(i).Type(), d+1) {
+						return true
+					}
+				}
+			}
+			return false
+		}
+		return walk(t, 0)
+	}
+	tr := p.newTracer()
+	tr.throughParams, tr.throughFields, tr.throughCalls = false, false, false
+	check := func(fn *ssa.Function, at ssa.Instruction, ch, val ssa.Value) {
+		if !carriesConn(val.Type()) {
+			return
+		}
+		c.see(fn)
+		key := "conn-hand-over@" + funcName(fn)
+		good := true
+		why := ""
+		for _, r := range tr.origins(ch) {
+			mk, ok := r.(*ssa.MakeChan)
+			if !ok {
+				good, why = false, "the channel's make site is not visible ("+exprStr(r)+")"
+				continue
+			}
+			if n, isC := constInt(mk.Size); !isC || n != 0 {
+				good, why = false, "the channel made at "+p.pos(mk.Pos())+" is buffered"
+			}
+		}
+		c.check(good, key, instrPos(at), "the connection is handed over by rendezvous (unbuffered channel)",
+			why+": the send succeeds even when the receiver has already given up, and the connection is then owned by nobody — it stays registered but never becomes idle, so capacity is lost and further connections are dialled")
+	}
+	for _, f := range funcs {
+		fn := f
+		eachInstr(f, func(in ssa.Instruction) {
+			switch x := in.(type) {
+			case *ssa.Send:
+				check(fn, in, x.Chan, x.X)
+			case *ssa.Select:
+				for _, st := range x.States {
+					if st.Dir == types.SendOnly {
+						check(fn, in, st.Chan, st.Send)
+					}
+				}
+			}
+		})
+	}
+}
+
+// checkPackBufferExact: pool.PackBuffer hands out, on every non-nil return, a buffer b = GetBuf(len(wire)) into which
+// wire (the result of m.PackBuffer) was copied on every path — never the scratch buffer (the message may not be in
+// it: miekg/dns allocates its own slice when the uncompressed size does not fit) and never a slice that is not pooled.
+func checkPackBufferExact(c *Ctx) {
+	f := c.fn(relPool, "", "PackBuffer")
+	if f == nil {
+		return
+	}
+	c.see(f)
+	key := "pack-buffer-exact"
+	var wire ssa.Value
+	eachInstr(f, func(in ssa.Instruction) {
+		if ci, ok := in.(*ssa.Call); ok && callName(ci) == "(*github.com/miekg/dns.Msg).PackBuffer" {
+			for _, r := range referrers(ci) {
+				if ex, ok := r.(*ssa.Extract); ok && ex.Index == 0 {
+					wire = ex
+				}
+			}
+		}
+	})
+	if wire == nil {
+		c.fail(key, f.Pos(), "no dns.Msg.PackBuffer call")
+		return
+	}
+	n := 0
+	for _, r := range returnsOf(f) {
+		rv := returnedValues(r)
+		if len(rv) == 0 || isNilConst(rv[0]) {
+			continue
+		}
+		n++
+		get, ok := rv[0].(*ssa.Call)
+		if !ok || callName(get) != poolGet {
+			c.fail(key, instrPos(r), "PackBuffer returns %s, not a pool buffer made for this message: the caller's ReleaseBuf panics on a foreign slice, or the bytes are those of the scratch buffer", exprStr(rv[0]))
+			return
+		}
+		sz, ok := get.Call.Args[0].(*ssa.Call)
+		if !ok || callName(sz) != "builtin:len" || sz.Call.Args[0] != wire {
+			c.fail(key, instrPos(get), "the returned buffer is %s long, not len(wire)", exprStr(get.Call.Args[0]))
+			return
+		}
+		copied := false
+		eachInstr(f, func(in ssa.Instruction) {
+			ci, ok := in.(*ssa.Call)
+			if !ok || callName(ci) != "builtin:copy" || ci.Call.Args[1] != wire {
+				return
+			}
+			if ld, ok := ci.Call.Args[0].(*ssa.UnOp); ok && ld.X == ssa.Value(get) && instrDominates(ci, r) {
+				copied = true
+			}
+		})
+		if !copied {
+			c.fail(key, instrPos(r), "the packed message is not copied into the returned buffer on every path")
+			return
+		}
+	}
+	c.check(n > 0, key, f.Pos(), "every non-nil result is GetBuf(len(wire)) holding a copy of the packed message", "PackBuffer never returns a buffer")
+}
